@@ -12,6 +12,7 @@ evaluation of that string at import time, which new units are *acceptable* and w
   reference gives its meaning; the table obligation T1 compares the package's value with it);
 * a new name `n` is accepted over the table `refs` accepted so far (the whole reference, then the new units
   before it) when
+  0. it is a word of the unit grammar (`[a-zA-Z]+`; a name with a digit in it can never be written);
   1. **none of its 21 spellings** — `n` itself and `p ++ n` for each SI prefix `p` — **has a meaning over
      `refs`** (`firstTaken`): otherwise `n` would take over a spelling that is already a unit or a prefixed
      unit (`Eh` = exa-hour, `min` ≠ milli-inch), or one of its prefixed forms would be hidden by, or hide,
@@ -99,13 +100,17 @@ inductive Verdict
   | ambiguous (spelling : Name)   -- this spelling of the new unit already has a meaning
   | badDefinition (e : Err)       -- the definition does not evaluate (malformed, unknown or later name, zero divisor)
   | unsupported                   -- inexact (irrational power), non-positive magnitude, or non-integer exponent
+  | notAWord                      -- the name is not a word of the unit grammar (`[a-zA-Z]+`): no text denotes it
   deriving Repr
 
 def Verdict.isAccepted : Verdict → Bool
   | .accepted _ => true
   | _ => false
 
-def judge (refs : List Ref) (n : Name) (df : Defn) : Verdict :=
+/-- a name the scanner reads as one word token -/
+def isWord (n : Name) : Bool := n != [] && n.all isAsciiAlpha
+
+def judgeWord (refs : List Ref) (n : Name) (df : Defn) : Verdict :=
   match firstTaken refs n with
   | some s => .ambiguous s
   | none =>
@@ -114,6 +119,9 @@ def judge (refs : List Ref) (n : Name) (df : Defn) : Verdict :=
     | .ok (⟨.exact q, d⟩, tol) =>
       if 0 < q ∧ d.toList.all isInt = true then .accepted ⟨n, q, d, tol⟩ else .unsupported
     | .ok (⟨.inexact _, _⟩, _) => .unsupported
+
+def judge (refs : List Ref) (n : Name) (df : Defn) : Verdict :=
+  if isWord n then judgeWord refs n df else .notAWord
 
 def grow (refs : List Ref) : Verdict → List Ref
   | .accepted r => refs ++ [r]
